@@ -40,7 +40,8 @@ func certificatePrefix(id sdk.Address) []byte {
 }
 
 func certificateSerialFromKey(key []byte) big.Int {
-	if len(key) < keyAddrPrefixLen+1 {
+	// a zero serial has an empty byte representation: the key then ends with the owner address
+	if len(key) < keyAddrPrefixLen {
 		panic("invalid key size")
 	}
 
